@@ -75,13 +75,14 @@ const asciiVerbs = "vsdqxXtbcoOUeEfFgGpTw"
 var oddVerbs = [][]byte{[]byte("é"), []byte("×"), []byte(startS), []byte(endS), {0xE2}, {0xFF}, []byte("!"), []byte("z"), []byte("Z"), []byte("y")}
 
 type fmtConfig struct {
-	noW         bool // exclude %w
-	noZeroMinus bool // exclude '0' together with '-' (fmt semantics changed across releases)
-	noStar      bool
-	validVerbs  bool   // only ASCII letter verbs of asciiVerbs (minus exclusions)
-	noTp        bool   // exclude %T and %p
-	bytesAlpha  bool   // literals over the byte alphabet
-	verbs       string // if set, draw verbs from this string
+	noW           bool // exclude %w
+	noZeroMinus   bool // exclude '0' together with '-' (fmt semantics changed across releases)
+	noStar        bool
+	validVerbs    bool   // only ASCII letter verbs of asciiVerbs (minus exclusions)
+	noTp          bool   // exclude %T and %p
+	bytesAlpha    bool   // literals over the byte alphabet
+	verbs         string // if set, draw verbs from this string
+	noHugeNumbers bool   // no widths/precisions around 1e6
 }
 
 func (fc *fmtConfig) genDirective(rt *rapid.T) *Directive {
@@ -121,6 +122,14 @@ func (fc *fmtConfig) genDirective(rt *rapid.T) *Directive {
 		if !fc.noStar {
 			d.Prec = ".*"
 		}
+	}
+	// rarely: numbers at the limits of what the format parser accepts (fmt
+	// treats a width or precision above 1e6 as an error; the outputs are ~1 MB)
+	if !fc.noHugeNumbers && rapid.IntRange(0, 2999).Draw(rt, "hugenum") == 1777 {
+		n := []string{"999999", "1000000", "1000001", "1000009", "100000000000"}[rapid.IntRange(0, 4).Draw(rt, "hugen")]
+		// (widths only: a float rendered with a precision of 1e6 keeps
+		// strconv busy for seconds)
+		d.Width = n
 	}
 	d.Verb = fc.genVerb(rt)
 	return d
